@@ -90,6 +90,7 @@ pub fn from_into(j: &J) -> Result<(bool, Vec<&'static str>), (String, Option<&'s
 		}
 	}
 	texts(j, &v, "$").map_err(|m| (format!("from_serde_json: {m}"), None))?;
+	crate::objquery::self_consistent(&v).map_err(|m| (format!("from_serde_json(j) is not queryable by key: {m}"), None))?;
 	let back = guarded(|| v.clone().into_serde_json()).map_err(|p| (format!("into_serde_json panicked: {p}"), None))?;
 	if &back == j {
 		let via_from: J = v.clone().into();
